@@ -312,4 +312,115 @@ Proof.
       split; [left; reflexivity|]. left. split; [exact K1|exact Z1].
 Qed.
 
+(* ------------------------------------------------------------------ room in the min stack from the volume budget *)
+(* M1 = a length the min stack is known to have whenever F > 0 *)
+Lemma budget_room limit M1 zl F E Etot :
+  1 <= limit -> 0 <= F -> limit * F <= 2 * E -> E <= Etot -> 6 < 2 ^ (zl - 1) ->
+  (F = 0 \/ M1 <= zl) -> 8 * Etot + 6 * limit < limit * 2 ^ (M1 - 1) ->
+  4 * F + 6 < 2 ^ (zl - 1).
+Proof.
+  intros Hl HF HP HE H6 [->|HM] HB; [lia|].
+  assert (1 <= M1).
+  { destruct (Z_lt_le_dec M1 1); [|lia]. rewrite Z.pow_neg_r in HB by lia.
+    assert (0 <= Etot) by nia. lia. }
+  pose proof (pow2_mono (M1 - 1) (zl - 1) ltac:(lia)) as HM2.
+  set (A := 2 ^ (M1 - 1)) in *. set (B := 2 ^ (zl - 1)) in *.
+  assert (limit * (4 * F + 6) < limit * B) by nia.
+  apply (Z.mul_lt_mono_pos_l limit); lia.
+Qed.
+
+Lemma VInv_potential limit c F E : VInv limit c F E -> limit * F <= 2 * E /\ 0 <= F.
+Proof.
+  intros ((S0 & _ & _) & HF & HP). pose proof (so_ind Q c S0) as Hi.
+  pose proof (Z.abs_nonneg (nthZ (mn c) 0)). split; [lia|exact HF].
+Qed.
+
+(* ------------------------------------------------------------------ the event loop, general regime *)
+(* regime: either the buffer is still at most `limit` long (then no flush has ever skipped merge_all: F = 0, and the
+   first growth will give `min` at least M1 slots), or `min` already has M1 slots *)
+Definition regime (limit M1 : Z) (c : coo) (F : Z) : Prop :=
+  (cap c <= limit /\ F = 0 /\ M1 <= grow_min_size (zlen (mn c))) \/ M1 <= zlen (mn c).
+
+Lemma regime_F limit M1 c F : regime limit M1 c F -> F = 0 \/ M1 <= zlen (mn c).
+Proof. intros [(_ & H & _)|H]; [left; exact H|right; exact H]. Qed.
+
+Lemma appends_v limit M1 Etot : forall evs c F E,
+  1 <= limit -> VInv limit c F E -> ind c <= cap c - 2 -> 20 <= cap c -> keys_nonneg Q evs ->
+  6 < 2 ^ (zlen (mn c) - 1) -> regime limit M1 c F ->
+  E + zlen evs <= Etot -> 8 * Etot + 6 * limit < limit * 2 ^ (M1 - 1) ->
+  exists c' F',
+    appends limit c evs = Ok c' /\ VInv limit c' F' (E + zlen evs) /\ ind c' <= cap c' - 2 /\ 20 <= cap c' /\
+    6 < 2 ^ (zlen (mn c') - 1) /\ regime limit M1 c' F' /\
+    (forall k, sumby (live c') k = sumby (live c) k + sumby evs k).
+Proof.
+  induction evs as [|ev t IH]; intros c F E Hl HV Hic Hcap Hk H6 HR HE HB.
+  - exists c, F. replace (E + zlen (@nil entry)) with E by (zl; lia).
+    split; [reflexivity|]. split; [exact HV|]. split; [exact Hic|]. split; [exact Hcap|]. split; [exact H6|].
+    split; [exact HR|]. intros k. simpl. lia.
+  - zl. inversion Hk as [|? ? Hev Ht]; subst. pose proof (zlen_nonneg t) as Lt.
+    destruct (VInv_potential limit c F E HV) as [HP HF].
+    assert (Hroom : 4 * F + 6 < 2 ^ (zlen (mn c) - 1)).
+    { apply (budget_room limit M1 (zlen (mn c)) F E Etot); auto; [lia|apply (regime_F limit), HR]. }
+    destruct (coo_append_v limit c F E ev Hl HV Hic Hcap Hev Hroom) as (c1 & F1 & E1 & V1 & J1 & C1 & U1 & FF & GG).
+    simpl appends. rewrite E1. cbn [bind].
+    assert (Hz : zlen (mn c) <= zlen (mn c1)).
+    { destruct GG as [(_ & G)|(_ & _ & _ & G & _)]; lia. }
+    assert (H61 : 6 < 2 ^ (zlen (mn c1) - 1)).
+    { assert (1 <= zlen (mn c)).
+      { destruct (Z_lt_le_dec (zlen (mn c)) 1); [|lia]. rewrite Z.pow_neg_r in H6 by lia. lia. }
+      pose proof (pow2_mono (zlen (mn c) - 1) (zlen (mn c1) - 1) ltac:(lia)). lia. }
+    assert (HR1 : regime limit M1 c1 F1).
+    { destruct HR as [(R1 & R2 & R3)|R].
+      - assert (F1 = 0) by (destruct FF as [->|(_ & FF)]; lia).
+        destruct GG as [(G1 & G2)|(_ & _ & _ & _ & G & _)].
+        + left. rewrite G1, G2. split; [exact R1|split; [assumption|exact R3]].
+        + right. lia.
+      - right. lia. }
+    destruct (IH c1 F1 (E + 1)) as (c' & F' & E' & V' & J' & C' & H6' & R' & U'); auto; [lia|].
+    exists c', F'. split; [exact E'|].
+    replace (E + (1 + zlen t)) with (E + 1 + zlen t) by lia.
+    split; [exact V'|]. split; [exact J'|]. split; [exact C'|]. split; [exact H6'|]. split; [exact R'|].
+    intros k. rewrite U', U1. simpl. lia.
+Qed.
+
+(* the min-stack length that carries the volume budget of a buffer allocated with capacity n and |min| = mlen:
+   a buffer that starts at most `limit` long runs without any un-merged flush until coo_increase_mem has grown it *)
+Definition volume_mlen (limit n mlen : Z) : Z := if n <=? limit then grow_min_size mlen else mlen.
+
+(* the event budget: 8 * #events + 6 * limit < limit * 2^(volume_mlen - 1) *)
+Definition volume_ok (limit n mlen nev : Z) : Prop :=
+  4 <= mlen /\ 8 * nev + 6 * limit < limit * 2 ^ (volume_mlen limit n mlen - 1).
+
+Lemma init_VInv limit n mlen : 0 <= n -> 1 <= mlen -> VInv limit (init n mlen) 0 0.
+Proof.
+  intros Hn Hm. split; [apply (Inv_mono Q _ 0); [lia|apply init_inv; assumption]|].
+  split; [lia|]. simpl. rewrite nthZ_repeat0. simpl. lia.
+Qed.
+
+Theorem run_total_volume limit n mlen evs :
+  1 <= limit -> 20 <= n -> keys_nonneg Q evs -> volume_ok limit n mlen (zlen evs) ->
+  exists s, run limit n mlen evs = Ok s /\ (forall k, denote s k = sumby evs k) /\
+            StronglySorted Z.lt (map e_key (live s)) /\ keys_nonneg Q (live s).
+Proof.
+  intros Hl Hn Hk (Hm & HB).
+  pose proof (init_VInv limit n mlen ltac:(lia) ltac:(lia)) as V0.
+  assert (Z0 : zlen (mn (init n mlen)) = mlen) by (simpl; zl; lia).
+  assert (C0 : cap (init n mlen) = n) by (unfold cap; simpl; zl; lia).
+  assert (H6 : 6 < 2 ^ (mlen - 1)).
+  { pose proof (pow2_mono 3 (mlen - 1) ltac:(lia)). change (2 ^ 3) with 8 in *. lia. }
+  set (M1 := volume_mlen limit n mlen) in *.
+  destruct (appends_v limit M1 (zlen evs) evs (init n mlen) 0 0) as (c & F & E & V & J & C & H6' & R & U); auto;
+    try (rewrite ?C0, ?Z0; simpl ind; lia).
+  { unfold regime, M1, volume_mlen. rewrite C0, Z0. destruct (n <=? limit) eqn:T.
+    - left. apply Z.leb_le in T. split; [exact T|split; [reflexivity|lia]].
+    - right. lia. }
+  destruct (VInv_potential limit c F _ V) as [HP HF].
+  assert (Hroom : 4 * F + 6 < 2 ^ (zlen (mn c) - 1)).
+  { apply (budget_room limit M1 (zlen (mn c)) F (0 + zlen evs) (zlen evs)); auto; [lia|apply (regime_F limit), R]. }
+  destruct V as (I & _ & _).
+  destruct (finish_ok Q c (4 * (F + 1))) as (s & Ef & Sf & Uf & Ss); [exact I|lia|lia|].
+  exists s. unfold run. rewrite E. cbn [bind]. split; [exact Ef|]. split; [|split; [exact Ss|apply Sf]].
+  intros k. unfold denote. rewrite Uf, U. simpl. lia.
+Qed.
+
 End WithQ.
